@@ -258,8 +258,17 @@ class AsyncFront(object):
                     # let the blocker take the lock first
                     k.block_until(lambda: s.blocker_has_lock or s.blocker_done, desc="wait for blocker")
                 kw = dict(s.cfg.writer_kwargs())
+                # (a thread inherits the daemon flag of its creator; the simulator's task threads are daemon
+                # threads of the host interpreter, an application's main thread is not)
+                import threading as _real_threading
+                _ct = _real_threading.current_thread()
+                _was = _ct._daemonic
+                _ct._daemonic = False
                 try:
-                    w = AsyncWriter(self.ix, delay=a.get("delay", 0.25), writerargs=kw)
+                    try:
+                        w = AsyncWriter(self.ix, delay=a.get("delay", 0.25), writerargs=kw)
+                    finally:
+                        _ct._daemonic = _was
                 except (SimAbort, SimKilled, HarnessError):
                     raise
                 except Exception as e:  # noqa
@@ -300,7 +309,12 @@ class AsyncFront(object):
                 self.pending = (ops, tx["end"])
                 try:
                     w.commit(**merge_kwargs(tx["end"][1]))
-                    if buffered:
+                    if buffered and getattr(w, "daemon", False) and ti == len(self.record["txs"]) - 1:
+                        # the caller has nothing more to do and its program ends: the interpreter waits for
+                        # ordinary threads and drops daemon threads on the floor. What was handed to the
+                        # writer must be saved all the same (a plain writer would have saved it).
+                        self.exit_now = True
+                    elif buffered:
                         # wait for the retry thread to finish (bounded liveness)
                         k.block_until(lambda: not w.is_alive(), desc="async join")
                 except (SimAbort, SimKilled, HarnessError):
@@ -326,6 +340,12 @@ class AsyncFront(object):
                         s.count("async_delete_by_query")
                 mw.commit()
                 s.count("commits")
+                if getattr(self, "exit_now", False):
+                    s.count("async_program_exit_with_daemon_thread")
+                    proc = k.current.proc
+                    s.os.kill(proc)
+                    k.reap_tasks_of(proc)
+                    return
                 if s.blocker_done or self.record["frontend"] == "async_free":
                     if not s.blocker_applied and s.blocker_done:
                         s.apply_blocker()
